@@ -50,6 +50,7 @@ type EchoCli struct {
 func init() {
 	Register(&Scenario{
 		Name:     "conc",
+		LazyToo:  true,
 		DescToo:  true,
 		Property: "C02",
 		Params: func(tier string) []Param {
